@@ -2,9 +2,9 @@
 from .. import cfgrun, cfgstream, core, pkggen, schemafam as F
 
 RULE = ("schemas with 1..3 abstract types and 0..4 concrete types implementing / extending them in random combinations, one "
-        "multisection slot per abstract type plus single slots addressed by a fixed name whose type is abstract (any order), 0..2 generated component packages adding implementers; texts of '<type/>' "
+        "multisection slot per abstract type plus single slots addressed by a fixed name whose type is abstract (any order), 0..2 generated component packages adding implementers, some of them ALSO imported by the schema itself ('<import package=…/>': a '%import' of such a package is a no-op); texts of '<type/>' "
         "lines for every kind of type name (implementer, extender, non-implementer, the abstract type itself, package type, "
-        "unknown) with '%import' lines before, between and after; sequences of up to 4 loads on one schema object. The "
+        "unknown) with '%import' lines before, between and after; sequences of up to 4 loads on one schema object; all '%import' sequences of length <= 3 over three packages against schemas importing none / one / two of them, each followed by three probe loads per package type (type alone, type before its '%import', type after it). The "
         "expected outcome is computed line by line from the statement (visible implementers = static ones + those imported "
         "earlier in this load). non-trivial = at least one section line; distinct by (schema, text)")
 
@@ -54,12 +54,78 @@ def gen_world(rng, pk):
             imports = (names[1],)
         pk.add_component(ptypes, name=names[j], imports=imports)
         pkgs.append((names[j], ptypes, imports))
+    # the application schema itself imports some of the packages (schema-level <import package=…/>): their implementers are
+    # static vocabulary, and a '%import' naming them adds nothing (the configuration may still say it, anywhere)
+    if npk and rng.random() < 0.5:
+        cand = rng.sample(names, rng.randint(1, npk))
+        if static_closure(abss, impl, pkgs, cand) is not None:
+            sd.imports = cand
     bad = {"nocomp": pk.add_plain_package(), "module": pk.add_module(), "missing": "zcv_no_such_package_%d" % rng.randint(0, 999)}
     return sd, abss, con, impl, pkgs, bad
 
 
-def expected(abss, con, impl, pkgs, bad, lines, slots=None):
-    """the statement, line by line; returns 'ok' or 'reject'.  `slots` = the schema's section slots in schema order as
+def _import_into(bypkg, abss, visible, imported, order, p):
+    """a component is recorded, then its own imports are read, then its types are defined; each component once.  False when a
+    type name would be defined twice"""
+    if p in imported:
+        return True
+    imported.add(p)
+    e = bypkg.get(p)
+    if e is None:
+        return True
+    for q in (e[2] if len(e) > 2 else ()):
+        if not _import_into(bypkg, abss, visible, imported, order, q):
+            return False
+    for t in e[1]:
+        if t.name in visible or t.name in abss:
+            return False                # a type name cannot be redefined
+        visible[t.name] = t.implements
+        order.append((p, t))
+    return True
+
+
+def static_closure(abss, impl, pkgs, simports):
+    """what the schema-level imports contribute: (visible types, components, package types in definition order), or None when
+    the schema document would be refused (a type name defined twice)"""
+    visible, imported, order = dict(impl), set(), []
+    bypkg = {e[0]: e for e in pkgs}
+    for p in simports:
+        if not _import_into(bypkg, abss, visible, imported, order, p):
+            return None
+    # components in the order they were recorded = first visit order
+    seen = []
+
+    def visit(p):
+        if p in seen or p not in bypkg:
+            return
+        seen.append(p)
+        for q in bypkg[p][2]:
+            visit(q)
+    for p in simports:
+        visit(p)
+    return visible, seen, order
+
+
+def world_elab(sd, abss, impl, pkgs):
+    """the schema object the model starts from: own types, then the types of the schema-level imports in definition order,
+    and the component URLs they recorded"""
+    simports = getattr(sd, "imports", ())
+    if not simports:
+        return F.elaborate(sd)
+    _, comps, order = static_closure(abss, impl, pkgs, simports)
+    el = F.elaborate(F.SchemaD(sd.children, list(sd.types) + [t for _, t in order], sd.keytype, sd.datatype, sd.handler))
+    el[4] = ["package:%s:component.xml" % p for p in comps]
+    return el
+
+
+def expected(abss, con, impl, pkgs, bad, lines, slots=None, simports=()):
+    return expected_why(abss, con, impl, pkgs, bad, lines, slots, simports)[0]
+
+
+def expected_why(abss, con, impl, pkgs, bad, lines, slots=None, simports=()):
+    """the statement, line by line; returns ('ok', None) or ('reject', why) with why = the clause of the statement that refuses
+    the first refused line ('unknown-type': the type is in the vocabulary of neither the schema nor an '%import' read earlier
+    IN THIS LOAD; 'not-implementer'; 'import-refused'; 'name-reused'; 'slot').  `simports` = the packages the schema itself imports.  `slots` = the schema's section slots in schema order as
     (fixed name or None, abstract type): the first slot that claims a header decides (a fixed-name slot claims the
     header carrying its name and admits it only for an implementer of its type; a '*' slot claims every header whose
     type implements its abstract type)"""
@@ -72,21 +138,9 @@ def expected(abss, con, impl, pkgs, bad, lines, slots=None):
     bypkg = {e[0]: e for e in pkgs}
 
     def do_import(p):
-        """a component is recorded, then its own imports are read, then its types are defined; each component once"""
-        if p in imported:
-            return True
-        imported.add(p)
-        e = bypkg.get(p)
-        if e is None:
-            return True
-        for q in (e[2] if len(e) > 2 else ()):
-            if not do_import(q):
-                return False
-        for t in e[1]:
-            if t.name in visible or t.name in abss:
-                return False                # a type name cannot be redefined
-            visible[t.name] = t.implements
-        return True
+        return _import_into(bypkg, abss, visible, imported, [], p)
+    for p in simports:
+        do_import(p)                  # static vocabulary: the schema document was accepted, so this cannot clash
 
     for l in lines:
         if l.startswith("%define "):
@@ -97,20 +151,22 @@ def expected(abss, con, impl, pkgs, bad, lines, slots=None):
             if p.startswith("$"):
                 p = defs.get(p.strip("${}").lower())
                 if p is None:
-                    return "reject"
+                    return "reject", "import-refused"
             if p in bad.values() or p.startswith(".") or ".." in p or p.endswith("."):
-                return "reject"
+                return "reject", "import-refused"
             if not do_import(p):
-                return "reject"
+                return "reject", "import-refused"
         else:
             parts = l[1:-2].strip().split()
             t = parts[0].lower()
             nm = parts[1].lower() if len(parts) > 1 else None
+            if t not in visible and t not in abss:
+                return "reject", "unknown-type"
             if t not in visible or visible[t] is None:
-                return "reject"
+                return "reject", "not-implementer"
             if nm is not None:
                 if nm in used:
-                    return "reject"          # a section name is not reused inside one container
+                    return "reject", "name-reused"          # a section name is not reused inside one container
                 used.add(nm)
             verdict = "reject"
             for fixed, ab in slots:
@@ -122,8 +178,8 @@ def expected(abss, con, impl, pkgs, bad, lines, slots=None):
                     verdict = "ok"
                     break
             if verdict != "ok":
-                return "reject"
-    return "ok"
+                return "reject", "slot"
+    return "ok", None
 
 
 def gen_text(rng, abss, con, impl, pkgs, bad, fixed=()):
@@ -168,9 +224,12 @@ def run(ctx):
         for _ in range(nworlds):
             sd, abss, con, impl, pkgs, bad = gen_world(rng, pk)
             real = F.load_real(sd)
-            elab = F.elaborate(sd)
+            elab = world_elab(sd, abss, impl, pkgs)
             if not cfgstream.check_digest(ctx, sd, real, elab):
                 continue
+            simports = tuple(sd.imports)
+            if simports:
+                ctx.count("world:schema-level-import")
             nested = any(e[2] for e in pkgs)     # the model's packages are flat: components importing components are compared with the reference only
             mp = [pkggen.model_pkg(e[0], e[1], elab) for e in pkgs] + \
                  [[bad["nocomp"], core.sexp.Atom("nocomponent")], [bad["module"], core.sexp.Atom("notpackage")],
@@ -184,10 +243,12 @@ def run(ctx):
                 ans = core.driver_batch([cfgrun.model_load_request(elab, t, cfgstream.URL, overrides=o, pkgs=mp) for t, o in zip(texts, ovs)])
             else:
                 ans = [None] * len(texts)
-            before = cfgrun.subtypes_table(real)
+            vocab = _vocabulary(real)
             history = []
             for t, a, ov in zip(texts, ans, ovs):
-                exp = expected(abss, con, impl, pkgs, bad, t, slots)
+                exp, why = expected_why(abss, con, impl, pkgs, bad, t, slots, simports)
+                if simports and any(l.startswith("%import ") and l.split()[1] in simports for l in t):
+                    ctx.count("text:%import-of-a-schema-level-component")
                 out, cfg, _ = cfgrun.real_load(real, "\n".join(t) + "\n", cfgstream.URL, ov, reuse=False)
                 fresh, _, _ = cfgrun.real_load(F.load_real(sd), "\n".join(t) + "\n", cfgstream.URL, ov, reuse=False)
                 if ov:
@@ -212,13 +273,14 @@ def run(ctx):
                     # the same text against the schema object that already served earlier loads
                     leaked = any(l.startswith("%import") for h in history for l in h)
                     ctx.violate("after %d earlier loads: %r gives %s, against a fresh schema %s" % (len(history), t, got, gotf), rep,
-                                signature="C12:history:%s-expected-%s%s" % (got, exp, ":after-import" if leaked else ""))
+                                signature=_history_signature(got, exp, why, leaked))
                 history.append(t)
+                _check_vocabulary(ctx, real, vocab, rep, history)
                 if len(history) >= 4:
                     history = []
                     real = F.load_real(sd)
-                    before = cfgrun.subtypes_table(real)
-            ctx.sample({"lines": texts[0], "expected": expected(abss, con, impl, pkgs, bad, texts[0], slots)})
+                    vocab = _vocabulary(real)
+            ctx.sample({"lines": texts[0], "schema_level_imports": list(simports), "expected": expected(abss, con, impl, pkgs, bad, texts[0], slots, simports)})
         # directed history: two packages define the same type name, only the first implements the abstract type
         sd = F.SchemaD([F.SectD("ab0", "*", True, False, "s_ab0")], [F.AbsD("ab0")])
         pa = pk.add_component([F.TypeD("shared", [], implements="ab0")])
@@ -266,11 +328,135 @@ def run(ctx):
                             {"schema_xml": xml, "lib": "<sectiontype name='cache'><key name='dir'/></sectiontype>", "order": order},
                             signature="C12:import-src-redefinition:accepted")
         _directed_imports(ctx, pk)
+        _import_histories(ctx, pk)
     finally:
         pk.close()
     return core.finish(ctx, obligations, discharged, names, RULE,
                        "lake build ZCV.Props.C12 && lake env lean ZCV/Audit/C12.lean",
                        ["package import machinery (sys.path, __path__) is outside the model: packages are given to the model as their elaborated types"])
+
+
+def _history_signature(got, exp, why, leaked):
+    """the class of a load whose outcome on a schema object that served earlier loads differs from the statement.  An accepted
+    section whose type is in the vocabulary of neither the schema nor an '%import' of THIS load is a class of its own: the
+    known implementer-table leak (C12-import-leak-accepts) needs the later load to define the type name itself"""
+    if got == "ok" and exp == "reject" and why == "unknown-type":
+        return "C12:history:unimported-type-accepted"
+    return "C12:history:%s-expected-%s%s" % (got, exp, ":after-import" if leaked else "")
+
+
+def _vocabulary(schema):
+    """what the application's schema object offers to a load: its type names and the components it has recorded"""
+    return sorted(schema.gettypenames()), sorted(schema._components)
+
+
+def _check_vocabulary(ctx, schema, vocab, rep, history):
+    """'%import' extends the vocabulary of that load only: the schema object handed to the load has the same type names and
+    components afterwards (which implementers an abstract type lists is the separate known finding C13-implementers-leak)"""
+    now = _vocabulary(schema)
+    if now != vocab:
+        r = dict(rep)
+        r.update({"loads_so_far": [list(h) for h in history], "type_names_before": vocab[0], "type_names_after": now[0],
+                  "components_before": vocab[1], "components_after": now[1]})
+        ctx.violate("after the loads %r the application's schema object knows the type names %r / components %r it did not have before"
+                    % ([list(h) for h in history], sorted(set(now[0]) - set(vocab[0])), sorted(set(now[1]) - set(vocab[1]))), r,
+                    signature="C12:history:schema-vocabulary-grew")
+        return False
+    return True
+
+
+def _import_histories(ctx, pk):
+    """'%import' extends the vocabulary of that load only, whatever the load imported and in which order - including
+    '%import's that add nothing because the schema itself imports the component.  Three flat packages PA, PB, PC (one implementer
+    each) and one that imports PC; schemas importing none, one or two of them at schema level; first load = every sequence of
+    '%import' lines (length 1..3 quick, ..4 thorough, repetitions included) followed by one section per type then visible;
+    then, ON THE SAME SCHEMA OBJECT, three probe loads per package type: the type alone, the type before its '%import', the
+    type after its '%import'.  Oracle: the statement (expected_why), the same text on a fresh schema object, the model on the
+    fresh schema, and the schema object's vocabulary after every load."""
+    import itertools
+    abss = ["plug"]
+    own = F.TypeD("own0", [F.KeyD("k", "string")], implements="plug")
+    impl = {"own0": "plug"}
+    pkgs = []
+    for stem in ("pa", "pb", "pc"):
+        ty = [F.TypeD(stem + "0", [], implements="plug")]
+        pkgs.append((pk.add_component(ty), ty, ()))
+    tyd = [F.TypeD("pd0", [], implements="plug")]
+    pkgs.append((pk.add_component(tyd, imports=(pkgs[2][0],)), tyd, (pkgs[2][0],)))
+    PA, PB, PC, PD = [e[0] for e in pkgs]
+    flat = pkgs[:3]
+    bad = {}
+    maxlen = 4 if ctx.thorough() else 3
+    for simports, avail in (((), flat), ((PA,), flat), ((PB, PA), flat), ((PA,), pkgs), ((PD,), pkgs)):
+        sd = F.SchemaD([F.SectD("plug", "*", True, False, "plugs")], [F.AbsD("plug"), own], imports=simports)
+        elab = world_elab(sd, abss, impl, pkgs)
+        if not cfgstream.check_digest(ctx, sd, F.load_real(sd), elab):
+            continue
+        ctx.count("histories:schema-imports-%d" % len(simports))
+        nested = avail is pkgs
+        names = [e[0] for e in avail]
+        static = static_closure(abss, impl, pkgs, simports)[0]
+        seqs = [q for n in range(1, (maxlen if not nested else 2) + 1) for q in itertools.product(names, repeat=n)]
+        probes = []
+        for e in avail:
+            t = e[1][0].name
+            probes.append((e[0], [["<%s/>" % t], ["<%s/>" % t, "%import " + e[0]], ["%import " + e[0], "<%s/>" % t]]))
+        texts = {}
+        for q in seqs:
+            vis, imported = dict(static), set()
+            first = []
+            for p in q:
+                first.append("%import " + p)
+                _import_into({e[0]: e for e in pkgs}, abss, vis, imported, [], p)
+            first += ["<%s/>" % t for t in vis if vis[t]]
+            texts[q] = first
+        # the model (flat packages only) on a fresh schema, one batch
+        model = {}
+        if ctx.driver_ok and not nested:
+            mp = [pkggen.model_pkg(e[0], e[1], elab) for e in flat]
+            uniq = [list(x) for x in sorted({tuple(t) for t in texts.values()} | {tuple(t) for _, ps in probes for t in ps})]
+            for t, a in zip(uniq, core.driver_batch([cfgrun.model_load_request(elab, t, cfgstream.URL, pkgs=mp) for t in uniq])):
+                m = cfgrun.canon_model(a)
+                model[tuple(t)] = "ok" if m[0] == "ok" else "reject" if m[0] == "cfg" else m[0]
+        fresh_memo = {}
+
+        def fresh(t):
+            k = tuple(t)
+            if k not in fresh_memo:
+                o, _, _ = cfgrun.real_load(F.load_real(sd), "\n".join(t) + "\n", cfgstream.URL, reuse=False)
+                fresh_memo[k] = ("ok" if o[0] == "ok" else "reject" if o[0] == "cfg" else o[0]), o[:2]
+            return fresh_memo[k]
+        for q in seqs:
+            for pname, ps in probes:
+                real = F.load_real(sd)
+                vocab = _vocabulary(real)
+                history = []
+                for t in [texts[q]] + ps:
+                    exp, why = expected_why(abss, [], impl, pkgs, bad, t, None, simports)
+                    out, _, _ = cfgrun.real_load(real, "\n".join(t) + "\n", cfgstream.URL, reuse=False)
+                    got = "ok" if out[0] == "ok" else "reject" if out[0] == "cfg" else out[0]
+                    gotf, fo = fresh(t)
+                    ctx.evaluations += 1
+                    ctx.count("histories:expected:" + exp)
+                    if any(p in simports for p in q):
+                        ctx.count("histories:no-op-import-in-first-load")
+                    ctx.nontriv(("import-history", simports, q, pname, tuple(t)))
+                    rep = {"schema_xml": F.render_xml(sd), "schema_level_imports": list(simports), "lines": t,
+                           "packages": {e[0]: [F.render_xml(F.SchemaD([], e[1]), "component"), list(e[2])] for e in pkgs},
+                           "history": [list(h) for h in history], "expected": exp, "why": why, "reused_schema": out[:2], "fresh_schema": fo}
+                    mm = model.get(tuple(t))
+                    if mm is not None and mm != gotf and not history:
+                        ctx.disagree("import-history", rep, fo, mm)
+                    if gotf != exp and gotf in ("ok", "reject"):
+                        ctx.violate("fresh schema (importing %r itself): %r gives %s, the implementer rules give %s" % (list(simports), t, gotf, exp), rep,
+                                    signature="C12:fresh:%s-expected-%s" % (gotf, exp))
+                    elif got != exp and got in ("ok", "reject"):
+                        ctx.violate("schema importing %r itself, after the loads %r: %r gives %s, against a fresh schema %s"
+                                    % (list(simports), [list(h) for h in history], t, got, gotf), rep,
+                                    signature=_history_signature(got, exp, why, bool(history)))
+                    history.append(t)
+                    _check_vocabulary(ctx, real, vocab, rep, history)
+        ctx.sample({"schema_level_imports": list(simports), "first_load": texts[seqs[-1]], "probes": probes[-1][1]})
 
 
 def _directed_imports(ctx, pk):
